@@ -22,10 +22,11 @@ Dec(t) == CASE t \in Letters -> t
             [] t \in {"\"", "%22"} -> "QUOTE"
             [] t \in {"~e~", "%C3%A9", "%c3%a9"} -> "EAC"
             [] t = "%26" -> "AMP"
+            [] t \in {"'", "%27"} -> "APOS"      \* punctuation that no encode set touches
 \* utf8_percent_encode of a decoded character with the QUERY encode sets (rule: two passes, the
 \* second one with "+" in the set; request: one pass with "+" in the set); "&" is not in the set
 Enc(d) == CASE d \in Letters -> d [] d = "SP" -> "%20" [] d = "PLUS" -> "%2B" [] d = "QUOTE" -> "%22"
-            [] d = "EAC" -> "%C3%A9" [] d = "AMP" -> "&"
+            [] d = "EAC" -> "%C3%A9" [] d = "AMP" -> "&" [] d = "APOS" -> "'"
 \* sanitize_url / URL_ENCODE_SET on raw text: space, quote, #, <, >, controls and non-ASCII only
 San(t) == CASE t = " " -> "%20" [] t = "\"" -> "%22" [] t = "~e~" -> "%C3%A9" [] OTHER -> t
 \* String::to_lowercase on the presentation
@@ -36,7 +37,7 @@ LowD(d) == CASE d = "P" -> "p" [] d = "A" -> "a" [] d = "B" -> "b" [] d = "K" ->
 MapSeq(f(_), s) == [i \in 1..Len(s) |-> f(s[i])]
 
 \* byte order of decoded single-character keys (BTreeMap order); multi-token keys compare lexicographically
-Rank(d) == CASE d = "SP" -> 1 [] d = "QUOTE" -> 2 [] d = "AMP" -> 3 [] d = "PLUS" -> 4
+Rank(d) == CASE d = "SP" -> 1 [] d = "QUOTE" -> 2 [] d = "AMP" -> 3 [] d = "APOS" -> 4 [] d = "PLUS" -> 5
              [] d = "A" -> 10 [] d = "B" -> 11 [] d = "K" -> 12 [] d = "P" -> 13
              [] d = "a" -> 20 [] d = "b" -> 21 [] d = "k" -> 22 [] d = "p" -> 23 [] d = "utm_source" -> 24 [] d = "x" -> 25
              [] d = "EAC" -> 40
